@@ -33,7 +33,9 @@ def _frame(ctxs):
         "contexts": st.lists(ctxs, min_size=0, max_size=3),
         "hide": st.sampled_from([False, False, False, True]),
         "hide_line": st.sampled_from([False, False, False, False, True]),
-        "lineno": st.sampled_from([None, None, None, None, 0, 2]),
+        # -1: the frame has no line (f_lineno is None on 3.10+ while an instruction without line information executes, e.g.
+        # the implicit cleanup of `except ... as e`); Frame.lineno is then None.  On 3.9 a frame always has a line.
+        "lineno": st.sampled_from([None, None, None, None, None, 0, 2, -1]),
     })
 
 
@@ -104,13 +106,18 @@ def number(tree):
 
 # ------------------------------------------------------------------------------------ abstraction
 
+PY39 = [False]      # set by the checks to the interpreter whose result is being judged
+
+
 def frame_lineno(f):
+    if f.get("lineno") == -1:
+        return FRAME_LINE if PY39[0] else None
     return FRAME_LINE if f.get("lineno") is None else f["lineno"]
 
 
 def frame_linetext(f):
     ln = frame_lineno(f)
-    if ln == 0 or f.get("hide_line"):
+    if not ln or f.get("hide_line"):
         return ""
     return pool_line(f["fn"], ln)
 
@@ -160,7 +167,7 @@ class ReadError(Exception):
     pass
 
 
-HEADER = re.compile(r"^(fn\d+) in (.+) at (.+):(\d+)$")
+HEADER = re.compile(r"^(fn\d+) in (.+) at (.+):(\d+|None)$")
 
 
 def _tok(text, prefixes):
@@ -234,7 +241,7 @@ def read_frame(body):
                 raise ReadError("code line is not the last line of its frame")
         else:
             raise ReadError("bad frame-level line %r" % ln)
-    return {"fn": m.group(1), "lineno": int(m.group(4)), "ctxs": ctxs, "code": code}
+    return {"fn": m.group(1), "lineno": None if m.group(4) == "None" else int(m.group(4)), "ctxs": ctxs, "code": code}
 
 
 def read_ctx_body(lines):
